@@ -9,7 +9,7 @@
 (* event is consumed and a line "@DRIFT <index> <what>" is printed.         *)
 (*                                                                         *)
 (* Events (field e):                                                       *)
-(*   ints   items: [x, wres, enc, canary, rres, rv, rused, rw]             *)
+(*   ints   items: [x, wres, enc, canary, rres, rv, rused, rw, xres, xenc, sres] *)
 (*          write_int(x) into 5 bytes, then read_int of the output         *)
 (*   decs   items: [b, res, v, used, w]        read_int on arbitrary bytes *)
 (*   pk_new cap / w k x b res after / pk_end res written canary            *)
@@ -34,6 +34,8 @@ Detail(ok, what) == IF ok THEN TRUE ELSE Drift(what)     \* (a disjunction here 
 PropInt(r) == /\ r.wres = "ok" /\ r.canary = TRUE
               /\ r.enc = Encode(r.x) /\ Len(r.enc) \in 1..5
               /\ r.rres = "ok" /\ r.rv = r.x /\ r.rused = Len(r.enc) /\ r.rw = <<>>
+              \* a buffer with exactly Len(Encode(x)) bytes of room takes it, one byte less is refused
+              /\ r.xres = "ok" /\ r.xenc = Encode(r.x) /\ r.sres = "cap"
 
 \* decoding fails only because the string ends too early, yields the documented value (for
 \* zero padding), consumes the documented number of bytes and is warning-free exactly when
